@@ -1185,6 +1185,7 @@ class FiniteStateMachine:
                                                SupvisorsStates.DISTRIBUTION,
                                                SupvisorsStates.SHUTTING_DOWN],
                     SupvisorsStates.DISTRIBUTION: [SupvisorsStates.OFF,
+                                                   SupvisorsStates.SYNCHRONIZATION,
                                                    SupvisorsStates.ELECTION,
                                                    SupvisorsStates.OPERATION,
                                                    SupvisorsStates.RESTARTING,
